@@ -2,6 +2,7 @@
 //! Every mode prints one JSON line per case on stdout and a final {"t":"done"} line.
 mod arrays;
 mod backends;
+mod deep;
 mod engine;
 mod faults;
 mod gen;
@@ -269,6 +270,14 @@ fn main() {
                 prog(case, "c02cache");
                 let res = routes::c02_cache_case(seed, case);
                 let nt = res.feat("variant") <= 1;
+                em.case(case, &res, nt);
+            }
+        }
+        "c03deep" => {
+            for case in from..to {
+                prog(case, "c03deep");
+                let res = deep::c03_deep_case(seed, case);
+                let nt = res.feat("depth") >= 118;
                 em.case(case, &res, nt);
             }
         }
